@@ -29,6 +29,24 @@ func splitTok(t []string, sep string) [][]string {
 	return append(out, cur)
 }
 
+// seqOracle, when set, receives every executed step of a sequential history so that the
+// property's own oracle is evaluated on the implementation's observable behaviour.
+var seqOracle func(st *seqStep)
+
+type seqStep struct {
+	line    string // the history so far (a replayable case line ending with this step)
+	cfg     []string
+	msg     []string
+	ans     [][]string
+	before  g.VerifConnInfo
+	after   g.VerifConnInfo
+	reply   *g.Fcall // nil: no reply (connection dropped)
+	frame   int      // length of the reply frame
+	reqlen  int      // length of the request frame
+	calls   []string
+	destroy []uint32
+}
+
 func execSrvSeq(line string) (string, bool) {
 	t := strings.Fields(line)
 	parts := splitTok(t[1:], ";")
@@ -51,7 +69,8 @@ func execSrvSeq(line string) (string, bool) {
 		s.sc.calls = nil
 		s.sc.destroy = nil
 		s.sc.mu.Unlock()
-		dotu := s.info().Dotu
+		before := s.info()
+		dotu := before.Dotu
 		fc := g.NewFcall(1 << 20)
 		if err := packMsg(fc, dotu, msg); err != nil {
 			outs = append(outs, "unsendable")
@@ -62,13 +81,27 @@ func execSrvSeq(line string) (string, bool) {
 			tag = g.NOTAG
 		}
 		g.SetTag(fc, tag)
-		if _, err := s.c.Write(fc.Pkt); err != nil {
+		prefix := func() string {
+			return "srvseq " + strings.Join(cfg, " ") + " ; " + joinSteps(parts[1:i+2])
+		}
+		dropped := func() {
 			outs = append(outs, "no-reply")
+			if seqOracle != nil {
+				time.Sleep(2 * time.Millisecond)
+				s.sc.mu.Lock()
+				calls := append([]string{}, s.sc.calls...)
+				s.sc.mu.Unlock()
+				seqOracle(&seqStep{line: prefix(), cfg: cfg, msg: msg, ans: ans, before: before, after: before,
+					reqlen: len(fc.Pkt), calls: calls})
+			}
+		}
+		if _, err := s.c.Write(fc.Pkt); err != nil {
+			dropped()
 			break
 		}
 		buf, err := readFrame(s.c, 10*time.Second)
 		if err != nil {
-			outs = append(outs, "no-reply")
+			dropped()
 			break
 		}
 		vi := s.info()
@@ -88,6 +121,15 @@ func execSrvSeq(line string) (string, bool) {
 			}
 		}
 		s.sc.mu.Lock()
+		if seqOracle != nil {
+			var rr *g.Fcall
+			if err == nil {
+				rr = rc
+			}
+			seqOracle(&seqStep{line: prefix(), cfg: cfg, msg: msg, ans: ans, before: before, after: vi, reply: rr,
+				frame: len(buf), reqlen: len(fc.Pkt), calls: append([]string{}, s.sc.calls...),
+				destroy: append([]uint32{}, s.sc.destroy...)})
+		}
 		calls := "[" + strings.Join(s.sc.calls, ",") + "]"
 		ds := make([]string, len(s.sc.destroy))
 		for k, d := range s.sc.destroy {
@@ -98,4 +140,12 @@ func execSrvSeq(line string) (string, bool) {
 			strings.Join(ds, ","), showFids(vi), vi.Msize, b2s(vi.Dotu)))
 	}
 	return strings.Join(outs, " ; "), ok
+}
+
+func joinSteps(steps [][]string) string {
+	p := make([]string, len(steps))
+	for i, st := range steps {
+		p[i] = strings.Join(st, " ")
+	}
+	return strings.Join(p, " ; ")
 }
